@@ -368,6 +368,19 @@ class Phase(Angle):
 
         return result
 
+    def __setitem__(self, item, value):
+        if isinstance(item, str):
+            return super().__setitem__(item, value)
+
+        # Quantity would store the single-double value in both fields.
+        value = Phase(value, copy=False, subok=True)
+        if value.imaginary != self.imaginary and np.any(value.view(np.ndarray) != np.zeros((), self._phase_dtype)):
+            raise ValueError("cannot mix real and imaginary phases in one array.")
+        self.view(np.ndarray)[item] = value.view(np.ndarray)
+
+    def fill(self, value):
+        self[...] = value
+
     def __iter__(self):
         if self.isscalar:
             raise TypeError(
